@@ -193,7 +193,9 @@ Definition step_gen (locked nka : bool) (s : st) (e : ev) : st :=
   | TtLate => if pend s then set_pend (set_phase s (ph s) true) false else s
   | KeepTick =>
       if tt_free s then
-        (if ka s && negb (need s) then
+        (* _check_keepalive: `if not interval or not encrypting or need_rekey: return` - the last term as found
+           in the source (keepalive_need_guard) *)
+        (if ka s && negb (keepalive_need_guard && need s) then
            match keepalive_disc with
            | Gated => gate_tt s keepalive_msg
            | Ungated => emit s keepalive_msg
